@@ -238,20 +238,46 @@ func driveRetain(c *driverCtx, run int) {
 		open bool
 	}
 	var ks []*kept
+	lastWrite := map[int]any{} // record index -> the record as its owner left it after writing into it
 	var checkpoints []any
 	checkpoint := func(after string) {
 		var idx, ids []int
-		var vs []any
+		var vs, wr []any
 		zn := []string{}
 		for i, k := range ks {
 			if k.open {
 				idx = append(idx, i+1)
 				vs = append(vs, safeProject(k.v))
+				if lw, ok := lastWrite[i]; ok {
+					wr = append(wr, lw)
+				} else {
+					wr = append(wr, node{"k": "none"})
+				}
 				ids = append(ids, bankID(k.bank))
 				zn = append(zn, zoneNames(k.v))
 			}
 		}
-		checkpoints = append(checkpoints, map[string]any{"after": after, "open": orEmptyInts(idx), "values": orEmpty(vs), "banks": orEmptyInts(ids), "zn": zn})
+		checkpoints = append(checkpoints, map[string]any{"after": after, "open": orEmptyInts(idx), "values": orEmpty(vs), "banks": orEmptyInts(ids), "zn": zn, "written": orEmpty(wr)})
+	}
+	// the application writes into the memory it was handed with record i: through the record's pointers, and by
+	// appending to its byte slice (which may use whatever capacity the slice came with). That memory is this record's
+	// alone: the record shows the writes from now on, no other record changes.
+	appWrite := func(i int) {
+		g := ks[i].v.Addr().Interface().(*GCInnerLite)
+		if g.PB != nil {
+			*g.PB = !*g.PB
+		}
+		if g.Q != nil {
+			*g.Q += 1000
+		}
+		if g.P != nil {
+			*g.P = "written by the application"
+		}
+		if len(g.B) > 0 {
+			g.B[0] ^= 0xff
+		}
+		_ = append(g.B, 0xEE, 0xEE, 0xEE, 0xEE)
+		lastWrite[i] = projectValue(ks[i].v) // the record as its owner left it
 	}
 	var rerr error
 	pan := catch(func() {
@@ -259,6 +285,9 @@ func driveRetain(c *driverCtx, run int) {
 			cp := reflect.New(st.typ).Elem()
 			cp.Set(reflect.NewAt(st.typ, val).Elem())
 			ks = append(ks, &kept{v: cp, bank: rb, open: true})
+			if !large && c.rng.Intn(3) == 0 {
+				appWrite(len(ks) - 1)
+			}
 			// close some earlier banks (their memory is recycled for later records)
 			for c.rng.Intn(3) == 0 {
 				j := c.rng.Intn(len(ks))
@@ -274,6 +303,15 @@ func driveRetain(c *driverCtx, run int) {
 		})
 	})
 	checkpoint("end of read")
+	if !large {
+		// ... and again now that every record has been decoded (whatever lies behind a record's bytes is in use by now)
+		for i, k := range ks {
+			if k.open && i%2 == 0 {
+				appWrite(i)
+			}
+		}
+		checkpoint("application writes")
+	}
 	// close in a seeded order, checking the survivors after each close
 	order := c.rng.Perm(len(ks))
 	for _, j := range order {
@@ -474,6 +512,7 @@ type GCInnerLite struct {
 	In *SInner            `json:"in"`
 	T  time.Time          `json:"t"`
 	PT *time.Time         `json:"pt"`
+	PB *bool              `json:"pb"`
 }
 
 // zoneNames: the names of the zones of the record's times (reachable from the record like everything else)
